@@ -19,6 +19,7 @@ import (
 	"go/token"
 	"os"
 	"path/filepath"
+	"regexp"
 	"sort"
 	"strconv"
 	"strings"
@@ -209,6 +210,7 @@ type Target struct {
 }
 
 var targets = []Target{
+	{"internal/playground", "", "iterationBound"},
 	{"pkg/sparse", "KBNSummer", "Add"},
 	{"pkg/sparse", "KBNSummer", "Sum"},
 	{"pkg/sparse", "Vector", "Sum"},
@@ -278,25 +280,25 @@ type Var struct {
 }
 
 type Fn struct {
-	T        Target
-	Decl     *ast.FuncDecl
-	LeanName string
-	Recv     *Var
-	Params   []*Var
-	Result   *Ty
-	Mutates  map[string]bool // lean names of receiver / params written through
-	UsesCap  bool
-	UsesFuel bool
-	Oracles  map[string]bool // sqrtO, nanO, infO: uninterpreted float functions (math.Sqrt, IsNaN, IsInf)
-	Vars     []*Var // all state fields, in declaration order
-	Body     string
-	ResAlias [][2]string // result field F shares its backing array with this path over the receiver / parameters
-	Named    []*Var      // named results
-	Aliases  [][3]string // alias flag name, Go name a, Go name b
-	Written  map[*Var]bool
+	T          Target
+	Decl       *ast.FuncDecl
+	LeanName   string
+	Recv       *Var
+	Params     []*Var
+	Result     *Ty
+	Mutates    map[string]bool // lean names of receiver / params written through
+	UsesCap    bool
+	UsesFuel   bool
+	Oracles    map[string]bool // sqrtO, nanO, infO: uninterpreted float functions (math.Sqrt, IsNaN, IsInf)
+	Vars       []*Var          // all state fields, in declaration order
+	Body       string
+	ResAlias   [][2]string // result field F shares its backing array with this path over the receiver / parameters
+	Named      []*Var      // named results
+	Aliases    [][3]string // alias flag name, Go name a, Go name b
+	Written    map[*Var]bool
 	StoredBack map[*Var]bool
-	Aux      []string
-	Err      string
+	Aux        []string
+	Err        string
 }
 
 var fns = map[string]*Fn{} // key: Recv+"."+Name or Name
@@ -324,16 +326,16 @@ type frame struct {
 }
 
 type comp struct {
-	fn       *Fn
-	scopes   []scope
-	names    map[string]int // lean field name -> count (uniquifier)
-	frames   []*frame
-	nextID   int
-	closures map[string]*ast.FuncLit
+	fn           *Fn
+	scopes       []scope
+	names        map[string]int // lean field name -> count (uniquifier)
+	frames       []*frame
+	nextID       int
+	closures     map[string]*ast.FuncLit
 	pendingLabel string
-	aux      []string // auxiliary definitions (loop parts), emitted before the body
-	ghosts   map[string]bool // variables that only carry unmodelled things (context, logger, time)
-	views    []view          // write-through aliases: a local path that shares its backing array with another path
+	aux          []string        // auxiliary definitions (loop parts), emitted before the body
+	ghosts       map[string]bool // variables that only carry unmodelled things (context, logger, time)
+	views        []view          // write-through aliases: a local path that shares its backing array with another path
 }
 
 // view: `key` (an lvalue path of the function, e.g. `inRow.Entries` or the range variable `row`) shares its
@@ -812,6 +814,11 @@ func (e *ectx) binary(x *ast.BinaryExpr, want *Ty) (string, *Ty) {
 			return fmt.Sprintf("(Int.tdiv %s %s)", a, b), tInt
 		case token.REM:
 			return fmt.Sprintf("(Int.tmod %s %s)", a, b), tInt
+		case token.SHL:
+			// a << k for a literal k only (unbounded ints: no wrap-around, see 14.3)
+			if m := regexp.MustCompile(`^\((\d+) : Int\)$`).FindStringSubmatch(b); m != nil {
+				return fmt.Sprintf("(%s * (2 : Int) ^ %s)", a, m[1]), tInt
+			}
 		}
 	}
 	panic(unsupported("binary " + op.String() + " on " + t.K))
@@ -2373,6 +2380,8 @@ func main() {
 		{"pkg/basic", "ConvergenceChecker", "Update"},
 		{"pkg/basic", "ConvergenceChecker", "Converged"},
 		{"pkg/basic", "ConvergenceChecker", "Delta"},
+		// Compute once more, now calling the checker translated from the source instead of the extern
+		{"pkg/basic", "", "Compute"},
 	} {
 		doTarget(t)
 	}
